@@ -517,7 +517,7 @@ func OpenWith(path string, vLogs []appendable.Appendable, txLog, cLog appendable
 			return nil, fmt.Errorf("corrupted transaction log: could not get size: %w", err)
 		}
 
-		if txLogFileSize < committedTxLogSize {
+		if committedTxOffset < 0 || txLogFileSize < committedTxLogSize {
 			return nil, fmt.Errorf("corrupted transaction log: size is too small: %w", ErrCorruptedTxData)
 		}
 	}
